@@ -1,4 +1,6 @@
-/- C13 — PIL grammar round trips: theorems are in Props/C13Pil.lean, C13Kernel.lean and C13More.lean. -/
+/- C13 — PIL grammar round trips: theorems are in Props/C13Pil.lean, C13Kernel.lean and C13More.lean; documents of any
+   number of statements in Props/C13Doc.lean. -/
 import DsdVerif.Props.C13Pil
 import DsdVerif.Props.C13Kernel
 import DsdVerif.Props.C13More
+import DsdVerif.Props.C13Doc
